@@ -1,6 +1,6 @@
 (* C02: element-wise pipelines compute the steps as written, in order.
    ONLY property theorems (each closed by `exact`) and non-vacuity examples. *)
-From Coq Require Import List ZArith Bool Permutation.
+From Coq Require Import List ZArith Bool Permutation Sorted.
 From IB Require Import Engine.Val Engine.Ops Engine.AMap Engine.Nodes Engine.Exec Engine.Planner
      Engine.Lang Engine.Denote Engine.Static Proofs.EngineElementwise.
 Import ListNotations.
@@ -34,7 +34,7 @@ Proof. exact program_as_written. Qed.
    reorder-safe, has at least two operators, and is not already sorted by (cost != 1, cost) *)
 Theorem c02_reorder_class : forall ops,
     reorder_ops ops <> ops ->
-    all_value_only ops = true /\ 2 <= length ops /\
+    all_value_only ops = true /\ (2 <= length ops)%nat /\
     ~ StronglySorted (fun a b => rkey_leb a b = true) ops.
 Proof. exact reorder_class. Qed.
 Theorem c02_sorted_block_untouched : forall ops,
